@@ -1,5 +1,6 @@
 //! One module per claimed property: workload generator + oracle.
 pub mod c13;
+pub mod c17;
 pub mod common;
 
 use crate::engine::Property;
@@ -7,8 +8,9 @@ use crate::engine::Property;
 pub fn by_id(id: &str) -> Option<&'static dyn Property> {
     match id {
         "C13" => Some(&c13::C13),
+        "C17" => Some(&c17::C17),
         _ => None,
     }
 }
 
-pub const ALL: &[&str] = &["C13"];
+pub const ALL: &[&str] = &["C13", "C17"];
